@@ -13,6 +13,9 @@ package main
 //	                                                            (0 0 for NaN/±Inf), computed by the generator
 //	tozcn <c>                                                   Coin.ToZCN
 //	rt <c> <coeff> <exp>                                        ParseZCN(ToZCN(c)); coeff/exp as for parse
+//	menc <c> <prefixhex|->                                      Coin.MarshalMsg(prefix) (currency_gen.go); output "ok <hex> <Msgsize>"
+//	mdec <hex|->                                                (*Coin).UnmarshalMsg; "ok <c> <rest|->" | "err short" |
+//	                                                            "err belowzero <v>" | "err badtype <t>" | "err invalidprefix <b>"
 //	fmul <x> <y>  flt <x> <y>  fle <x> <y>  feq <x> <y>  u2f <c>  f2u <x>
 //	                                                            the compiled float operations themselves (they pin the
 //	                                                            Lean float model; no currency code involved)
@@ -34,6 +37,7 @@ import (
 
 	"github.com/0chain/common/core/currency"
 	"github.com/shopspring/decimal"
+	"github.com/tinylib/msgp/msgp"
 )
 
 var (
@@ -477,6 +481,81 @@ func runC18(ops []string) CaseResult {
 					tags["rt:gt15-lost"] = true
 				}
 			}
+		case "menc":
+			c, pre := parseU(f[1]), unhx(f[2])
+			var size int
+			out = guard(func() string {
+				size = currency.Coin(c).Msgsize()
+				o, err := currency.Coin(c).MarshalMsg(append([]byte(nil), pre...))
+				if err != nil {
+					return "err " + strings.ReplaceAll(err.Error(), " ", "_")
+				}
+				return "ok " + hxd(o) + " " + strconv.Itoa(size)
+			})
+			want := append(append([]byte(nil), pre...), refEncodeUint(c)...)
+			switch {
+			case out == "panic":
+				fail(i, "panicked")
+			case out != "ok "+hxd(want)+" "+strconv.Itoa(size):
+				fail(i, "encoded %q, MessagePack for %d after the prefix is %s", out, c, hxd(want))
+			case len(want)-len(pre) > size:
+				fail(i, "Msgsize %d is smaller than the %d encoded bytes", size, len(want)-len(pre))
+			default:
+				// decode what was written, with trailing bytes
+				var z currency.Coin = 12345
+				rest, err := z.UnmarshalMsg(append(refEncodeUint(c), 0xc1, 0x7f))
+				if err != nil || uint64(z) != c || hxd(rest) != "c17f" {
+					fail(i, "decode(encode(%d) ++ c17f) = (%d, %s, %v)", c, uint64(z), hxd(rest), err)
+				}
+			}
+		case "mdec":
+			b := unhx(f[1])
+			const sentinel = 0xdeadbeefcafe
+			out = guard(func() string {
+				z := currency.Coin(sentinel)
+				in := append([]byte(nil), b...)
+				rest, err := z.UnmarshalMsg(in)
+				if err != nil {
+					s := ""
+					switch e := msgp.Cause(err).(type) {
+					case msgp.UintBelowZero:
+						s = "err belowzero " + strconv.FormatInt(e.Value, 10)
+					case msgp.TypeError:
+						s = "err badtype " + e.Encoded.String()
+					case msgp.InvalidPrefixError:
+						s = "err invalidprefix " + strconv.Itoa(int(byte(e)))
+					default:
+						if msgp.Cause(err) == msgp.ErrShortBytes {
+							s = "err short"
+						} else {
+							s = "err other " + strings.ReplaceAll(err.Error(), " ", "_")
+						}
+					}
+					if uint64(z) != sentinel {
+						s += " receiver-changed"
+					}
+					if rest != nil {
+						s += " rest-returned"
+					}
+					return s
+				}
+				return "ok " + strconv.FormatUint(uint64(z), 10) + " " + hxd(rest)
+			})
+			wv, wn, wok := refDecodeUint(b)
+			switch {
+			case out == "panic":
+				fail(i, "panicked on malformed input")
+			case strings.Contains(out, "receiver-changed") || strings.Contains(out, "rest-returned") || strings.HasPrefix(out, "err other"):
+				fail(i, "failed decode has side effects or an unexpected error: %s", out)
+			case wok:
+				if out != "ok "+strconv.FormatUint(wv, 10)+" "+hxd(b[wn:]) {
+					fail(i, "decoded %q, MessagePack says value %d with %d bytes consumed", out, wv, wn)
+				}
+			default:
+				if !strings.HasPrefix(out, "err ") {
+					fail(i, "decoded %q from bytes that are not a non-negative MessagePack integer", out)
+				}
+			}
 		case "fmul":
 			x, y := parseF(f[1]), parseF(f[2])
 			out = "ok " + fbits(rawMul(x, y))
@@ -510,6 +589,104 @@ func runC18(ops []string) CaseResult {
 		res.Tags = append(res.Tags, t)
 	}
 	return res
+}
+
+func hxd(b []byte) string {
+	if len(b) == 0 {
+		return "-"
+	}
+	return hx(b)
+}
+
+// refEncodeUint: MessagePack encoding of an unsigned integer in the smallest unsigned format (spec, independent of msgp)
+func refEncodeUint(u uint64) []byte {
+	be := func(n int) []byte {
+		o := make([]byte, n)
+		for i := 0; i < n; i++ {
+			o[n-1-i] = byte(u >> (8 * uint(i)))
+		}
+		return o
+	}
+	switch {
+	case u < 128:
+		return []byte{byte(u)}
+	case u < 1<<8:
+		return append([]byte{0xcc}, be(1)...)
+	case u < 1<<16:
+		return append([]byte{0xcd}, be(2)...)
+	case u < 1<<32:
+		return append([]byte{0xce}, be(4)...)
+	}
+	return append([]byte{0xcf}, be(8)...)
+}
+
+// refDecodeUint: (value, bytes consumed, ok) for a MessagePack integer of any int/uint format with a non-negative value
+func refDecodeUint(b []byte) (uint64, int, bool) {
+	if len(b) == 0 {
+		return 0, 0, false
+	}
+	width := map[byte]int{0xcc: 1, 0xcd: 2, 0xce: 4, 0xcf: 8, 0xd0: 1, 0xd1: 2, 0xd2: 4, 0xd3: 8}
+	if b[0] < 0x80 {
+		return uint64(b[0]), 1, true
+	}
+	w, isInt := width[b[0]]
+	if !isInt || len(b) < 1+w {
+		return 0, 0, false
+	}
+	var v uint64
+	for _, x := range b[1 : 1+w] {
+		v = v<<8 | uint64(x)
+	}
+	if b[0] >= 0xd0 && v>>(8*uint(w)-1) == 1 { // signed format, sign bit set
+		return 0, 0, false
+	}
+	return v, 1 + w, true
+}
+
+// genMsgp: encodings of boundary amounts, then malformed streams derived from valid encodings (truncation, type-byte
+// change, sign-bit set, splice, random bytes)
+func genMsgp(r *rand.Rand) []string {
+	var ops []string
+	for k := 0; k < 60; k++ {
+		c := randCoin(r)
+		if r.Intn(3) == 0 {
+			c = uint64(1)<<uint(7+r.Intn(4)*8+r.Intn(3)) + uint64(r.Intn(3)) - 1 // around 2^7, 2^8, 2^15, 2^16, 2^31, 2^32 …
+		}
+		pre := make([]byte, r.Intn(4))
+		r.Read(pre)
+		ops = append(ops, fmt.Sprintf("menc %d %s", c, hxd(pre)))
+		enc := refEncodeUint(c)
+		if r.Intn(2) == 0 { // the same value in another int/uint format
+			w := []int{1, 2, 4, 8}[r.Intn(4)]
+			lead := []byte{0xcc, 0xcd, 0xce, 0xcf, 0xd0, 0xd1, 0xd2, 0xd3}[r.Intn(2)*4+map[int]int{1: 0, 2: 1, 4: 2, 8: 3}[w]]
+			enc = []byte{lead}
+			for i := w - 1; i >= 0; i-- {
+				enc = append(enc, byte(c>>(8*uint(i))))
+			}
+		}
+		m := append([]byte(nil), enc...)
+		switch r.Intn(7) {
+		case 0:
+			m = m[:r.Intn(len(m)+1)]
+		case 1:
+			m[0] = byte(r.Intn(256))
+		case 2:
+			if len(m) > 1 {
+				m[1] |= 0x80
+			}
+		case 3:
+			tail := make([]byte, r.Intn(5))
+			r.Read(tail)
+			m = append(m, tail...)
+		case 4:
+			m = make([]byte, r.Intn(12))
+			r.Read(m)
+		case 5:
+			m[0] = []byte{0xca, 0xcb, 0xc0, 0xc1, 0xc2, 0xa3, 0x91, 0x81, 0xe0, 0xff, 0xd4, 0xc4}[r.Intn(12)]
+		}
+		ops = append(ops, "mdec "+hxd(m))
+	}
+	return ops
 }
 
 // ---- operand tables (DESIGN §6 C18) ---------------------------------------------------------------------
@@ -727,6 +904,8 @@ func genC18(r *rand.Rand, tier string, idx int) []string {
 		return genRoundingBoundary(r, idx)
 	case 5:
 		return genHighCoins(r)
+	case 6:
+		return genMsgp(r)
 	}
 	var ops []string
 	u := func(v uint64) string { return strconv.FormatUint(v, 10) }
@@ -830,6 +1009,30 @@ func exhC18(tier string, emit func(ops []string)) {
 		}
 		emit(ops)
 	}
+	// msgp codec: every amount of the table encoded (with and without prefix); every lead byte followed by 0..10
+	// payload bytes of three patterns (zeros, 0x7f…, 0x80… = sign bit set)
+	ops = nil
+	for _, a := range ct {
+		ops = append(ops, "menc "+u(a)+" -", "menc "+u(a)+" c1ff00", "mdec "+hxd(refEncodeUint(a)), "mdec "+hxd(append(refEncodeUint(a), 0x01, 0xc1)))
+	}
+	emit(ops)
+	ops = []string{"mdec -"}
+	for lead := 0; lead < 256; lead++ {
+		for n := 0; n <= 10; n++ {
+			for _, pat := range []byte{0x00, 0x7f, 0x80} {
+				b := []byte{byte(lead)}
+				for j := 0; j < n; j++ {
+					b = append(b, pat+byte(j))
+				}
+				ops = append(ops, "mdec "+hxd(b))
+			}
+		}
+		if len(ops) > 600 {
+			emit(ops)
+			ops = nil
+		}
+	}
+	emit(ops)
 	// ZCN amounts s·10^k, s with at most 3 (quick) / 4 (thorough) significant digits, every exponent that fits
 	maxS := uint64(999)
 	if tier == "thorough" {
